@@ -105,6 +105,10 @@ CHECKS = {
  "C37": ("exploration", "twin run of one pre-drawn script on an InMemory and an on-disk database + strace of an InMemory child process",
          "Scripts (transactions, write batches, flush, compactions, DropPrefix, DropAll) executed on both databases; after every step both are compared with the model and line by line with each other; an InMemory child runs under strace -f in an empty directory: no file-creating/writing syscall, directory stays empty.",
          "Values within the in-memory limit; no GC.", "4/C37"),
+
+ "C33": ("exploration", "compaction driver + model oracle on every read path (Get, iterators, Stream, Backup+Load), GC family, one guarded wall-clock case",
+         "Driver histories with ~45% expiring writes (stamps >= 10^6 s from the clock) mixed with deletes/overwrites over all placements and compaction kinds, normal and managed; Get/iterators checked after every step, Stream and Backup+Load at mid-run points and at the end; GC over expired value-log entries; TTL 2 s case judged only >= 1 s away from the boundary.",
+         "Clock-independent except the guarded case; GC family uses write-once keys (known GC finding).", "4/C33"),
 }
 
 def hooks_commits():
